@@ -264,12 +264,17 @@ def propose (st : St Float) : Gen (Option (Op Float)) := do
   if c ≥ 100 then
     -- guaranteed share: sums / norms / reads over TRANSPOSED proper SUB-BLOCKS (block of transpose, transpose of block),
     -- on column-ordered owners and on row-ordered ones (a Matrix_ constructed with one row, then grown)
-    let o ← rnd 4
+    let o0 ← rnd 4
+    -- half of the time prefer a row-ordered owner if one exists
+    let ro := (List.range 4).filter fun i => match st[i]? with | some x => x.isOwner && x.rowOrder | none => false
+    let pick ← rnd (max 1 ro.length)
+    let pref ← rndBool
+    let o := if !ro.isEmpty && pref then ro.getD pick o0 else o0
     match st[o]? with
     | none => return none
     | some ob =>
       if !ob.isOwner then return none
-      if c == 100 && !ob.rowOrder && viewCount st o == 0 then
+      if ro.isEmpty && c ≤ 102 && viewCount st o == 0 then
         -- make this handle row-ordered: construct it 1×n ...
         let n ← rnd 5
         let mut vals : Array Float := #[]
